@@ -58,6 +58,9 @@ for _op in ('angle', 'parallel', 'orthogonal'):
 
 def eval_scene(fam, s):
     k = s[0]
+    if k == 'after-prelude':
+        run_prelude()
+        return eval_scene(fam, s[1])
     if k == 'zero-length':
         ctor, form, p, axis = s[1], s[2], s[3], s[4]
         C = {'Line': Line, 'Segment': Segment, 'HalfLine': HalfLine}[ctor]
@@ -132,6 +135,26 @@ def eval_scene(fam, s):
     raise core.HarnessError('bad scene %r' % (s,))
 
 
+def run_prelude():
+    """a history of perfectly legal operations on objects obtained from the library's own factories and on
+    throw-away composites; none of it may weaken any later validity check."""
+    from Geometry3D import origin, x_unit_vector, y_unit_vector, z_unit_vector, x_axis, xy_plane
+    l = Line(Vector.zero(), Vector(1.0, 2.0, 2.0))
+    l.move(Vector(1.0, -2.0, 3.0))
+    z = Vector.zero()
+    z[1] = 5
+    o = origin()
+    o.move(Vector(0.5, 0.5, 0.5))
+    u = x_unit_vector()
+    u[0] = 0
+    Line(origin(), z_unit_vector()).move(y_unit_vector())
+    a = x_axis()
+    a.move(Vector(0.0, 0.0, 7.0))
+    pl = xy_plane()
+    pl.move(Vector(0.0, 0.0, 1.0))
+    hash(l), hash(pl), l == a
+
+
 class ListFamily(Family):
     def __init__(self, name, scenes, chunk=300):
         self.name = name
@@ -175,6 +198,7 @@ def families(tier):
                     sc.append(('zero-length', ctor, 'tiny-point', q, ax))
                     sc.append(('zero-length', ctor, 'tiny-vector', q, ax))
     fams.append(ListFamily('zero-length', sc))
+    fams.append(ListFamily('zero-length-after-legal-history', [('after-prelude', x) for x in sc[::7]]))
     # polygons
     sc = []
     box = A.B0 if tier == 'quick' else A.B1
@@ -207,6 +231,14 @@ def families(tier):
         for tri in collinear_tuples(A.B1, 3):
             for pm in permutations(tri):
                 sc.append(('plane', 'collinear-points', tuple(pose.point(p) for p in pm)))
+        # exactly collinear A, A+d, A+k d for oblique d and ratios other than 2
+        for d in (A.D2 if tier != 'quick' else A.D2[::3]):
+            for k in (3, 5, -1, -2, F(1, 2), F(5, 2)):
+                a0 = (1, -2, F(1, 2))
+                tri = (a0, X.add(a0, d), X.add(a0, X.scal(k, d)))
+                sc.append(('plane', 'collinear-points', tuple(pose.point(p) for p in tri)))
+                sc.append(('polygon', 'collinear', tuple(pose.point(p) for p in tri)))
+                sc.append(('polygon', 'collinear', tuple(pose.point(p) for p in (tri[2], tri[0], tri[1]))))
         for p in A.B0[:6]:
             sc.append(('plane', 'collinear-points', (pose.point(p),) * 3))
             sc.append(('plane', 'collinear-points', (pose.point(p), pose.point(p), pose.point(A.B0[7]))))
